@@ -34,13 +34,14 @@ func TestMain(m *testing.M) {
 	gen.Quiet()
 	log.VerifSetCritHandler(func(msg string) { panic(log.VerifCritPanic{Msg: msg}) })
 	ev.MustHit("crash-inside-import", "crash-inside-reorg", "crash-inside-stop-flush", "fault:batch-write", "fault:single-put", "fault:node-died(log.Crit)",
-		"archive", "pruning", "history-with-reorg", "history-with-storage-contract", "image-head-is-not-final-head", "refeed-converged", "closure-checked")
+		"archive", "pruning", "history-with-reorg", "history-with-storage-contract", "image-head-is-not-final-head", "refeed-converged", "closure-checked", "stop-leg:pruning", "history-reuses-deployed-contract")
 	ev.MustHitThorough("big-state-flush")
 	ev.Main(m, ev.Config{
 		Property: "C04",
 		Level:    "fault_enumeration",
 		Rule: "for each rapid-generated history (block tree with reorganisations to longer and to shorter-heavier branches, contracts with storage, archive or pruning cache, final Stop) the write log of a crash-free run is recorded by a wrapping database; EVERY prefix of the log (exhaustive per history) is materialised as a crash image, reopened with NewBlockChain and judged (no error/panic, head = last head the log made, complete state re-rooted with the reference MPT, number index = ancestry, closure of every state root on disk, re-feeding converges); " +
 			"then the history is re-run with one write step failing (every batch write + a stratified sample of single puts in quick, all in thorough), under a watchdog, and the resulting database judged the same way. " +
+			"A further leg judges only the images of the shutdown flush (every step inside it, and the clean image) over many longer histories that deploy contracts and use them again blocks later (pruning and archive). " +
 			"non-trivial = a (history, step) pair whose step lies strictly inside a block import, reorganisation or shutdown flush (not on an InsertChain boundary); distinct by history hash + step index + mode",
 		Assumptions: []string{
 			"crash model: loss of a suffix of atomic write steps; a Batch.Write is atomic and steps are durable in order (as goleveldb's are); torn batches, reordered writes and media corruption are outside the model",
@@ -270,7 +271,7 @@ func idxOf(n *gen.TNode) int {
 func drawHistory(t *rapid.T, big bool) *history {
 	nc := gen.ConfigByName(rapid.SampledFrom([]string{"steep", "steep", "all-at-0", "test-hf1-7"}).Draw(t, "config"))
 	opts := gen.TreeOpts{MaxBranches: 3, MaxDepth: 6, MinMain: 3, MaxTxs: 2, Rivals: true, TimeDeltas: []int64{1, 13, 240, 3000},
-		Kinds: []string{"transfer", "store-set", "store-clear", "multistore", "emit", "create", "suicide", "bouncer"}}
+		Kinds: []string{"transfer", "store-set", "store-clear", "multistore", "emit", "create", "create", "touch-created", "touch-created", "suicide", "bouncer"}}
 	if big {
 		opts.MaxBranches, opts.MaxDepth = 2, 4
 	}
